@@ -15,8 +15,8 @@ from vlib.core import MachineryError
 PKG = "c18"
 
 FAMILIES = {
-    "quick": ["ev1", "ev3", "ev2", "raw", "rawevent", "join"],
-    "thorough": ["ev1a", "ev1b", "ev1c", "ev1xa", "ev1xb", "ev1xc", "ev3", "ev2", "raw", "rawevent", "join"],
+    "quick": ["wf", "evall", "ev1", "ev3", "ev2", "raw", "rawevent", "join"],
+    "thorough": ["wf", "evall", "env", "ev1a", "ev1b", "ev1c", "ev1xa", "ev1xb", "ev1xc", "ev3", "ev2", "raw", "rawevent", "join"],
 }
 PROBES = {"quick": 6000, "thorough": 150000}
 
@@ -125,24 +125,43 @@ def run(ctx):
         if m:
             raise MachineryError("concretiser self-test: " + m)
 
-    # spec -> code
-    for fam in FAMILIES[ctx.tier]:
+    # code -> spec recording runs next to the generation (it only needs the harness)
+    from concurrent.futures import ThreadPoolExecutor
+    ctx._spec_dir()          # create the scratch copy of spec/ before any thread starts
+    ctx.harness_build(pkg=PKG)
+    pool = ThreadPoolExecutor(max_workers=3 if ctx.tier == "quick" else 2)
+    rec = pool.submit(record, ctx, PROBES[ctx.tier])
+
+    # spec -> code: TLC runs of the families are independent (a few at a time); the pipelines of a family are
+    # executed as soon as it has been generated
+    def gen(fam):
         cfg = "Lifecycle_gen_%s_%s.cfg" % (fam, ctx.tier)
-        r = ctx.tlc("Lifecycle_gen", cfg, timeout=1500, heap="12g")
-        if not r.records:
-            raise MachineryError("no records from %s (dead generator)" % cfg)
-        results = [x for x in ctx.harness("c18", r.records, pkg=PKG, timeout=3000) if "i" in x]
-        _report(ctx, "c18", r.records, results, cfg)
-        ctx.log("%s: %d pipelines executed, %d failing" % (cfg, len(results), sum(1 for x in results if not x.get("ok"))))
-        del r, results
+        return cfg, ctx.tlc("Lifecycle_gen", cfg, timeout=1800, heap="12g", workers=max(2, ctx.workers // 2))
+
+    futures = [pool.submit(gen, fam) for fam in FAMILIES[ctx.tier]]
+    try:
+        for fut in futures:
+            cfg, r = fut.result()
+            if not r.records:
+                raise MachineryError("no records from %s (dead generator)" % cfg)
+            results = [x for x in ctx.harness("c18", r.records, pkg=PKG, timeout=3000) if "i" in x]
+            _report(ctx, "c18", r.records, results, cfg)
+            ctx.log("%s: %d pipelines executed, %d failing" % (cfg, len(results), sum(1 for x in results if not x.get("ok"))))
+            del r, results
+        recorded = rec.result()
+    finally:
+        pool.shutdown(wait=True, cancel_futures=True)
 
     # code -> spec
-    record_and_validate(ctx, PROBES[ctx.tier])
+    validate(ctx, *recorded)
 
 
-def record_and_validate(ctx, n):
+def record(ctx, n):
     trace = os.path.join(ctx.scratch, "c18_trace.ndjson")
-    res = ctx.harness("c18rec", args=["-out", trace, "-n", n], pkg=PKG, timeout=3000)
+    return trace, ctx.harness("c18rec", args=["-out", trace, "-n", n, "-par", max(2, ctx.workers // 4)], pkg=PKG, timeout=3000)
+
+
+def validate(ctx, trace, res):
     summary = [r for r in res if r.get("summary")]
     failing = [r for r in res if "i" in r]
     if not summary:
